@@ -2,7 +2,7 @@
 From Coq Require Import Permutation.
 From CR Require Import Base Atomic Machine LinksFacts HeapFacts TraceFacts TraceTotal Local StackBound
   Termination Perm StdRc StdRefine Tokens InvDef InvLemmas ActBase ActHandles ActAdopt ActMove ActConsume
-  StepFrames StepPanic Purge GroupOps DropDec Group DropLast StepInv RunInv Consequences Common.
+  StepFrames StepPanic Purge GroupOps DropDec Group DropLast StepInv RunInv Consequences TablesFrame Common.
 Local Open Scope N_scope.
 
 (** in every configuration: tables are finite maps with positive counts, every
@@ -46,3 +46,50 @@ Theorem C08_adopt_and_unadopt_keep_the_invariant :
   forall h1 h2, act_preserves (AAdopt h1 h2) /\ act_preserves (AUnadopt h1 h2).
 Proof. exact (fun h1 h2 => conj (act_adopt h1 h2) (act_unadopt h1 h2)). Qed.
 Print Assumptions C08_adopt_and_unadopt_keep_the_invariant.
+
+(** THE LEDGER. The recorded adoption graph changes only by adopt and unadopt
+    calls and by the death of one of a record's ends: every other step — and
+    hence every call and every history that executes no adopt/unadopt — leaves
+    every record between two surviving objects unchanged ([records_kept]),
+    never makes a record grow ([no_growth]), never revives an object
+    ([dead_stays]) and creates objects with empty tables ([fresh_empty]) *)
+Theorem C08_only_adopt_unadopt_and_death_change_records :
+  forall pri c c', Inv_cfg c -> step_hyp c -> ledger_cfg c -> step pri c = Running c' ->
+  ledger_frame (heap_of (st c)) (heap_of (st c')).
+Proof. exact step_ledger. Qed.
+Print Assumptions C08_only_adopt_unadopt_and_death_change_records.
+
+Theorem C08_ledger_over_histories :
+  forall fuel h s, Inv s [] -> hist_ok fuel s h = true -> hist_ledger fuel s h = true ->
+  ledger_frame (heap_of s) (heap_of (fst (run_history fuel s h))).
+Proof. exact run_history_ledger. Qed.
+Print Assumptions C08_ledger_over_histories.
+
+(** each adopt adds exactly one record, visible from both ends, and changes
+    nothing else; each unadopt removes at most one (truncated subtraction) *)
+Theorem C08_adopt_exact :
+  forall s self h1 h2 a b l1 l2 s1 self1 r push,
+  resolve_strong s self h1 = Some (a, l1) -> resolve_strong s self h2 = Some (b, l2) ->
+  hloc_eqb l1 l2 = false ->
+  exec_act s self (AAdopt h1 h2) = AO s1 self1 r push ->
+  lget (heap_of s1) a (b, Fwd) = lget (heap_of s) a (b, Fwd) + 1 /\
+  lget (heap_of s1) b (a, Bwd) = lget (heap_of s) b (a, Bwd) + 1 /\
+  (forall o l, ~ (o = a /\ l = (b, Fwd)) -> ~ (o = b /\ l = (a, Bwd)) ->
+     lget (heap_of s1) o l = lget (heap_of s) o l) /\
+  heap_same_but_links (heap_of s) (heap_of s1).
+Proof. exact act_adopt_ledger. Qed.
+Print Assumptions C08_adopt_exact.
+
+Theorem C08_unadopt_exact :
+  forall s self pc k h1 h2 a b l1 l2 s1 self1 r push,
+  Inv s (ctx self pc k) ->
+  resolve_strong s self h1 = Some (a, l1) -> resolve_strong s self h2 = Some (b, l2) ->
+  hloc_eqb l1 l2 = false ->
+  exec_act s self (AUnadopt h1 h2) = AO s1 self1 r push ->
+  lget (heap_of s1) a (b, Fwd) = lget (heap_of s) a (b, Fwd) - 1 /\
+  lget (heap_of s1) b (a, Bwd) = lget (heap_of s) b (a, Bwd) - 1 /\
+  (forall o l, ~ (o = a /\ l = (b, Fwd)) -> ~ (o = b /\ l = (a, Bwd)) ->
+     lget (heap_of s1) o l = lget (heap_of s) o l) /\
+  heap_same_but_links (heap_of s) (heap_of s1).
+Proof. exact act_unadopt_ledger. Qed.
+Print Assumptions C08_unadopt_exact.
